@@ -215,6 +215,16 @@ theorem history_deep_configure_is_seen_example :
     lexGet, lexResult, mergeOuter, splitOnDot, mergeKVs.eq_1, mergeKVs.eq_2, mergeKVs.eq_3, mergeKVs.eq_4,
     mergeKVs.eq_5, mergeKVs.eq_6, mergeKVs.eq_7, Inv.lookup, Inv.insert, Except.map]
 
+/-- several tasks in ONE run (`execute(n₁, …, nₖ)` / one command line): the settings each task receives are those of
+    a lookup of ITS name in the tree - whatever was looked up before it in the same run; with
+    `same_for_alias_and_default_shortcut` this holds for every invocation form, nested default shortcuts (`a.b`,
+    `a.b.c`) included -/
+theorem run_settings_are_pointwise (c : Coll) (names : List (List CName)) :
+    runHist c (names.map (HStep.look [])) = names.map (lookAt c []) := by
+  induction names with
+  | nil => rfl
+  | cons n r ih => simp only [List.map_cons, runHist, ih]
+
 /-! ### collections loaded from a module
 
 `Collection.from_module` / `add_collection(module)` is CONSTRUCTION: it yields a NEW collection (`fromModule`: the
